@@ -107,6 +107,47 @@ fn pre_step(pre: &str) {
     // the descriptors stay open (and registered) for the rest of the scenario
 }
 
+extern "C" fn on_signal(_: c_int) {}
+static WAIT_OVER: std::sync::atomic::AtomicBool = std::sync::atomic::AtomicBool::new(false);
+
+/// "signals": a plain-thread caller is sent SIGUSR1 (a handler that does nothing, installed with SA_RESTART) every
+/// millisecond while it waits: each one interrupts the poll its wait is made of (epoll_wait is never restarted),
+/// and the wait must go on (TimedWait!EarlyWake for thread callers). With "busy" a coroutine keeps the event-loop
+/// thread computing, so that it is the waiting thread that sits in the poll.
+fn start_signals(busy: bool) {
+    unsafe {
+        let mut sa: libc::sigaction = std::mem::zeroed();
+        sa.sa_sigaction = on_signal as *const () as usize;
+        sa.sa_flags = libc::SA_RESTART;
+        libc::sigaction(libc::SIGUSR1, &sa, std::ptr::null_mut());
+    }
+    let target = unsafe { libc::pthread_self() } as usize;
+    std::thread::spawn(move || {
+        let mut n = 0u64;
+        while !WAIT_OVER.load(std::sync::atomic::Ordering::SeqCst) {
+            unsafe { libc::pthread_kill(target as libc::pthread_t, libc::SIGUSR1) };
+            n += 1;
+            std::thread::sleep(Duration::from_millis(1));
+        }
+        rec(json!({"ev": "signals", "sent": n}));
+    });
+    if busy {
+        let h = EventLoops::submit_task(None, |_| {
+            while !WAIT_OVER.load(std::sync::atomic::Ordering::SeqCst) {
+                let t0 = Instant::now();
+                while t0.elapsed() < Duration::from_millis(2) {
+                    std::hint::spin_loop();
+                }
+                if let Some(s) = open_coroutine_core::scheduler::SchedulableSuspender::current() {
+                    s.suspend();
+                }
+            }
+            Some(1)
+        }, None, None);
+        std::mem::forget(h);
+    }
+}
+
 fn run_scenario(sc: &Value) {
     let call = sc["call"].as_str().unwrap().to_string();
     let t_us = sc["t_us"].as_u64().unwrap();
@@ -117,13 +158,23 @@ fn run_scenario(sc: &Value) {
                "where": if in_co { "co" } else { "thread" }, "long": sc.get("long").and_then(Value::as_bool).unwrap_or(false)}));
     EventLoops::init(&Config::single());
     std::thread::sleep(Duration::from_millis(5));
+    let signals = sc.get("signals").and_then(Value::as_bool).unwrap_or(false);
+    let busy = sc.get("busy").and_then(Value::as_bool).unwrap_or(false);
     let work = move || {
         pre_step(&pre);
+        if signals {
+            start_signals(busy);
+        }
         rec(json!({"ev": "tw_b"}));
         let t0 = Instant::now();
         let (ret, code) = do_call(&call, t_us, &invalid);
         let us = t0.elapsed().as_micros() as u64;
+        WAIT_OVER.store(true, std::sync::atomic::Ordering::SeqCst);
         rec(json!({"ev": "tw_e", "ret": ret, "code": code, "us": us}));
+        if signals {
+            // let the signalling thread write its record
+            std::thread::sleep(Duration::from_millis(5));
+        }
     };
     if in_co {
         let h = EventLoops::submit_task(None, move |_| { work(); Some(1) }, None, None);
